@@ -30,6 +30,9 @@ type wit struct {
 var kept, emitted [][2][]byte
 
 func check(c *mon.Ctx, s []byte, class string) {
+	// the string comes as it is, as a tight copy, or as the front of a larger buffer whose further bytes are
+	// somebody else's (a receiver checks section[:n-4] inside its packet buffer)
+	s = gen.SlackBy(s, uint64(len(s))*2654435761+uint64(ref.CRC32MPEG2(s)))
 	snap := append([]byte{}, s...)
 	got := gots.ComputeCRC(s)
 	want := ref.BE32(ref.CRC32MPEG2(s))
